@@ -33,6 +33,9 @@ func (a *application) start(mode gen.ApplicationMode, options gen.ApplicationOpt
 		return gen.ErrApplicationState
 	}
 
+	// a new run: forget the reason the previous one ended with
+	a.reason = nil
+
 	// build app env
 	appEnv := make(map[gen.Env]any)
 	// 1. from core env
@@ -140,18 +143,19 @@ func (a *application) stop(force bool, timeout time.Duration) error {
 		members = append(members, pid)
 		return true
 	})
+	// set the reason before the members are told: the last of them runs the Terminate callback with it
+	if force {
+		a.reason = gen.TerminateReasonKill
+	} else {
+		a.reason = gen.TerminateReasonShutdown
+	}
+
 	for _, pid := range members {
 		if force {
 			a.node.Kill(pid)
 		} else {
 			a.node.SendExit(pid, gen.TerminateReasonShutdown)
 		}
-	}
-
-	if force {
-		a.reason = gen.TerminateReasonKill
-	} else {
-		a.reason = gen.TerminateReasonShutdown
 	}
 
 	lib.VerifPoint("app.stop.wait", a.spec.Name)
